@@ -17,6 +17,7 @@ FUNCTIONS = [
     "rdflib.plugins.serializers.nt._quote_encode", "rdflib.plugins.serializers.nt._quoteLiteral",
     "rdflib.plugins.parsers.ntriples.unquote", "rdflib.compat.decodeUnicodeEscape",
     "rdflib.plugins.parsers.notation3.SinkParser.strconst / uEscape / UEscape",
+    "rdflib.plugins.parsers.notation3.join",
     "rdflib.plugins.parsers.rdfxml.RDFXMLHandler.startElementNS / endElementNS / characters (language scoping)",
 ]
 STUBS = ["SinkParser is instantiated without a sink (strconst only reads self.lines/_thisDoc)",
@@ -242,6 +243,17 @@ def obligations(tier, seed):
                             family="k-ttl-reader", desc={"escape": esc, "delim": delim, "tail": " ."},
                             sig=[("a", "s"), ("b", "s")], pre=["len(a) <= %d" % m, "len(b) <= %d" % m],
                             budget=300 if tier == "quick" else 1500))
+    for depth in (0, 1, 2):
+        for ups in (0, 1, 2, 3):
+            if ups > depth + 1:
+                continue
+            for extra in ({}, {"dot": True}, {"frag": True}):
+                if extra and ups not in (0, depth):
+                    continue
+                d = dict(depth=depth, ups=ups, **extra)
+                obs.append(dict(oid="K/iri-join/depth%d/ups%d%s" % (depth, ups, "".join("/" + k for k in extra)), family="k-iri-join", desc=d,
+                                sig=[("s1", "s"), ("s2", "s"), ("f", "s"), ("name", "s")],
+                                pre=["len(s1) <= 1", "len(s2) <= 1", "len(f) <= 1", "len(name) <= 1"], budget=400))
     for present in ([1, 0, 0], [1, 0, 1], [1, 1, 0], [0, 1, 1], [1, 1, 1], [0, 0, 1], [0, 0, 0]):
         obs.append(dict(oid="K/rdfxml-lang/%s" % "".join(map(str, present)), family="k-rdfxml-lang", desc={"present": present},
                         sig=[("l0", "s"), ("l1", "s"), ("l2", "s")], pre=["len(l0) <= 1", "len(l1) <= 1", "len(l2) <= 1"],
@@ -257,6 +269,8 @@ def bounds(tier):
             "k-nt-reader / k-ttl-reader": "ntriples.unquote and SinkParser.strconst (4 quoting styles) vs a grammar-derived decoder on "
                                           "a <escape> b with a, b symbolic strings of length <= %d and %d enumerated escapes"
                                           % (1 if tier == "quick" else 2, 8 if tier == "quick" else len(kern.ESCAPES)),
+            "k-iri-join": "notation3.join (resolution of relative IRIs against @base): base paths 0-2 levels deep, references with 0-3 '../' "
+                          "(also './' and a fragment), segment and file names symbolic (length <= 1 over ab); expected per RFC 3986 5.2",
             "k-rdfxml-lang": "RDFXMLHandler driven with the SAX events of a three-level document; xml:lang presence by shape, values symbolic "
                              "strings (length <= 1 over ab, incl. the empty string that resets the language)",
             "outside": "statement-level grammar (prefixes, base, ; , [] (), comments, relative IRIs), the rest of RDF/XML, JSON-LD, TriG graph blocks, "
